@@ -1,10 +1,13 @@
 #!/usr/bin/env python3
 """Applies each patch of seeded_own/ to /repo, runs ./check C04 (quick), reverts, records which fire."""
-import glob, json, os, subprocess, time
+import glob, json, os, subprocess, sys, time
 V = "/verif"
-res = {}
+resfile = os.path.join(V, "seeded_own", "RESULTS.json")
+res = json.load(open(resfile)) if os.path.exists(resfile) else {}
 for patch in sorted(glob.glob(os.path.join(V, "seeded_own", "*.diff"))):
     name = os.path.basename(patch)[:-5]
+    if sys.argv[1:] and name not in sys.argv[1:]:
+        continue
     if subprocess.call(["git", "-C", "/repo", "apply", patch]) != 0:
         res[name] = {"error": "patch does not apply"}
         continue
@@ -12,9 +15,10 @@ for patch in sorted(glob.glob(os.path.join(V, "seeded_own", "*.diff"))):
         t0 = time.time()
         p = subprocess.run(["./check", "C04"], cwd=V, capture_output=True, text=True)
         v = [l[:300] for l in p.stdout.splitlines() if l.startswith("VIOLATION")]
-        res[name] = {"property": "C04", "check_exit": p.returncode, "n_violation_lines": len(v), "violations": v[:4],
+        keep = {k: v for k, v in res.get(name, {}).items() if k in ("ty_family_failures", "leaves_family")}
+        res[name] = {**keep, "property": "C04", "check_exit": p.returncode, "n_violation_lines": len(v), "violations": v[:4],
                      "summary": p.stdout.strip().splitlines()[-1][:300] if p.stdout.strip() else "", "wall_s": round(time.time() - t0, 1)}
         print(name, res[name]["check_exit"], res[name]["n_violation_lines"], flush=True)
     finally:
         subprocess.call(["git", "-C", "/repo", "checkout", "--", "."])
-    json.dump(res, open(os.path.join(V, "seeded_own", "RESULTS.json"), "w"), indent=1)
+    json.dump(res, open(resfile, "w"), indent=1)
